@@ -4,6 +4,7 @@ import (
 	"errors"
 	"fmt"
 	"io"
+	"math"
 	"sort"
 
 	"github.com/hack-pad/hackpadfs"
@@ -50,6 +51,18 @@ func PopulateDir(fs hackpadfs.FS, k int) error {
 			}
 		} else if err := hackpadfs.WriteFullFile(fs, p, []byte(ChildName(i)), 0600); err != nil {
 			return err
+		}
+		// the first file and the first directory carry mode bits that are neither permission nor type bits: an
+		// entry's Type() must still be the type bits only, and agree with Stat
+		switch i {
+		case 1:
+			if err := hackpadfs.Chmod(fs, p, 0600|hackpadfs.ModeSetuid|hackpadfs.ModeSticky); err != nil && !errors.Is(err, hackpadfs.ErrNotImplemented) {
+				return err
+			}
+		case 2:
+			if err := hackpadfs.Chmod(fs, p, 0700|hackpadfs.ModeSetgid|hackpadfs.ModeSticky); err != nil && !errors.Is(err, hackpadfs.ErrNotImplemented) {
+				return err
+			}
 		}
 	}
 	return nil
@@ -174,6 +187,9 @@ func (in *DInst) checkEntries(ents []hackpadfs.DirEntry, seen map[string]bool, s
 		if e.IsDir() != ChildIsDir(i) || e.Type().IsDir() != ChildIsDir(i) {
 			problems = append(problems, "kind-disagrees")
 		}
+		if e.Type()&^hackpadfs.ModeType != 0 {
+			problems = append(problems, "type-with-non-type-bits")
+		}
 		info, err := e.Info()
 		if err != nil || info == nil {
 			problems = append(problems, "info-error")
@@ -184,7 +200,10 @@ func (in *DInst) checkEntries(ents []hackpadfs.DirEntry, seen map[string]bool, s
 			problems = append(problems, "listed-entry-not-statable")
 			continue
 		}
-		if info.Name() != name || info.IsDir() != st.IsDir() || info.Mode().Perm() != st.Mode().Perm() || (!st.IsDir() && info.Size() != st.Size()) {
+		if e.Type() != st.Mode().Type() {
+			problems = append(problems, "kind-disagrees-with-stat")
+		}
+		if info.Name() != name || info.IsDir() != st.IsDir() || info.Mode() != st.Mode() || (!st.IsDir() && info.Size() != st.Size()) {
 			problems = append(problems, "info-disagrees-with-stat")
 		}
 	}
@@ -214,7 +233,11 @@ func (in *DInst) do(call *tla.Value) (o DObs) {
 			in.seen[i] = map[string]bool{}
 		}
 	case "readdir":
-		o.Entries, o.Err = hackpadfs.ReadDirFile(f, int(call.F("n").I))
+		n := int(call.F("n").I)
+		if n == math.MaxInt32 {
+			n = math.MaxInt // TLC's integers are 32 bits wide: the model's largest page stands for the platform's largest int
+		}
+		o.Entries, o.Err = hackpadfs.ReadDirFile(f, n)
 		o.Problems = in.checkEntries(o.Entries, in.seen[i], false)
 	case "readbytes":
 		buf := make([]byte, 1)
